@@ -20,8 +20,8 @@ pub mod resource {
 }
 
 // ---- abstract component set of an entity type / of an archetype key (R8: type-level selection)
-#[verifier::external_body]
-pub struct VxBits { p: PhantomData<u8> }
+/// the component set of a table / entity type: the bytes of its archetype identifier
+pub type VxBits = Seq<u8>;
 pub uninterp spec fn vx_bits_of<E>() -> VxBits;
 pub uninterp spec fn vx_key_bits<R: Registry>(k: archetype::IdentifierRef<R>) -> VxBits;
 pub uninterp spec fn vx_no_duplicates<R: Registry>() -> bool;
@@ -39,6 +39,20 @@ pub fn vx_canonical_batch<E>(e: E) -> (c: E)
 #[verifier::external_body]
 pub fn vx_assert_no_duplicates<R: Registry>()
     ensures vx_no_duplicates::<R>() { unimplemented!() }
+
+// ---- R7: identifier bytes (K-bits checks these accessors on the real code) --------------------
+pub open spec fn vx_bit(bytes: Seq<u8>, i: int) -> bool { (bytes[i / 8] >> ((i % 8) as u8)) & 1u8 == 1u8 }
+#[verifier::external_body]
+pub unsafe fn vx_ref_get_unchecked<R: Registry>(id: archetype::IdentifierRef<R>, index: usize) -> (b: bool)
+    requires index / 8 < vx_key_bits(id).len(),
+    ensures b == vx_bit(vx_key_bits(id), index as int) { unimplemented!() }
+#[verifier::external_body]
+pub fn vx_ref_as_vec<R: Registry>(id: archetype::IdentifierRef<R>) -> (v: Vec<u8>)
+    ensures v@ == vx_key_bits(id) { unimplemented!() }
+/// registry position of component `C` counted from the front (R8: `LEN - INDEX - 1`)
+pub uninterp spec fn vx_cidx<C>() -> usize;
+#[verifier::external_body]
+pub fn vx_component_index<C>() -> (r: usize) ensures r == vx_cidx::<C>() { unimplemented!() }
 
 // ---- R7: the archetype tables.  Assumed contracts (A3): a map from key to table. -----------
 #[verifier::external_body]
@@ -72,6 +86,18 @@ impl<R: Registry> Archetypes<R> {
                 ==> old(self)@.dom().contains(r.key()) && *r == old(self)@[r.key()] && vx_key_bits(r.key()) == bits@,
             !(exists|k: archetype::IdentifierRef<R>| old(self)@.dom().contains(k) && vx_key_bits(k) == bits@)
                 ==> !old(self)@.dom().contains(r.key()) && vx_fresh_table(*r, r.key(), bits@),
+            final(self)@ == old(self)@.insert(r.key(), *final(r)),
+    { unimplemented!() }
+
+    /// same lookup, by an owned identifier buffer (Entry::add / Entry::remove)
+    #[verifier::external_body]
+    pub fn vx_get_mut_or_insert_new(&mut self, identifier_buffer: archetype::Identifier<R>) -> (r: &mut archetype::Archetype<R>)
+        ensures
+            r.key() == vx_selected_key(old(self)@, identifier_buffer.spec_bits()),
+            (exists|k: archetype::IdentifierRef<R>| old(self)@.dom().contains(k) && vx_key_bits(k) == identifier_buffer.spec_bits())
+                ==> old(self)@.dom().contains(r.key()) && *r == old(self)@[r.key()] && vx_key_bits(r.key()) == identifier_buffer.spec_bits(),
+            !(exists|k: archetype::IdentifierRef<R>| old(self)@.dom().contains(k) && vx_key_bits(k) == identifier_buffer.spec_bits())
+                ==> !old(self)@.dom().contains(r.key()) && vx_fresh_table(*r, r.key(), identifier_buffer.spec_bits()),
             final(self)@ == old(self)@.insert(r.key(), *final(r)),
     { unimplemented!() }
 
@@ -726,12 +752,61 @@ def build():
            ensures=[("C18.default_checked", "r.wf()"), ("C01.new_empty", "r.len == 0")],
            props=["C18", "C01"]),
     ])
+    WE = "src/world/entry.rs"
+    EIMPL = r"^impl<'a, Registry, Resources> Entry<'a, Registry, Resources>\s*where\s*Registry: registry::Registry,\s*\{"
+    u.struct(WE, "Entry")
+    u.text(ENTRY_SPEC)
+    EWF = [("C13.entry.world_wf.alloc", "final(self).world.entity_allocator.wf()"),
+           ("C13.entry.world_wf.tables", "vx_tables_ok(final(self).world.archetypes@, &final(self).world.entity_allocator)"),
+           ("C13.entry.world_wf.ids_stored", "vx_ids_stored(final(self).world.archetypes@, &final(self).world.entity_allocator)"),
+           ("C13.entry.world_wf.single_table", "vx_single_table(final(self).world.archetypes@)"),
+           ("C13.entry.world_wf.len", "final(self).world.len == final(self).world.entity_allocator.active_count() && final(self).world.len == old(self).world.len"),
+           ("C15.entry.resources_untouched", "final(self).world.resources == old(self).world.resources"),
+           ("C02.entry.location_tracks", "final(self).wf() && final(self).id() == old(self).id()")]
+    u.impl("impl<'a, Registry, Resources> Entry<'a, Registry, Resources> where Registry: crate::Registry", [
+        Fn(WE, EIMPL, "new", ret="r",
+           ensures=[("entry.new", "r.location == location && *r.world == *old(world)")], props=["C01"]),
+        Fn(WE, EIMPL, "add", generics="<Component, Index>", where="",
+           requires=[("pre.entry_wf", "old(self).wf()"),
+                     ("pre.R8_component_in_registry", "vx_cidx::<Component>() / 8 < vx_key_bits(old(self).location.identifier).len()"),
+                     ("pre.A5_table_len", "forall|k: archetype::IdentifierRef<Registry>| old(self).world.archetypes@.dom().contains(k) ==> (#[trigger] old(self).world.archetypes@[k]).length < usize::MAX")],
+           ensures=EWF + [
+               ("C01.entry.add.view", "final(self).world.view() == old(self).world.view().insert(old(self).id(), vx_added::<Registry, Component>(old(self).world.view()[old(self).id()], component))"),
+           ],
+           hints=[Hint("start", "let ghost vx_e0 = *self; let ghost vx_w0 = *self.world;")],
+           props=["C01", "C02", "C13", "C15"]),
+        Fn(WE, EIMPL, "remove", generics="<Component, Index>", where="",
+           requires=[("pre.entry_wf", "old(self).wf()"),
+                     ("pre.R8_component_in_registry", "vx_cidx::<Component>() / 8 < vx_key_bits(old(self).location.identifier).len()"),
+                     ("pre.A5_table_len", "forall|k: archetype::IdentifierRef<Registry>| old(self).world.archetypes@.dom().contains(k) ==> (#[trigger] old(self).world.archetypes@[k]).length < usize::MAX")],
+           ensures=EWF + [
+               ("C01.entry.remove.view", "final(self).world.view() == old(self).world.view().insert(old(self).id(), vx_removed::<Registry, Component>(old(self).world.view()[old(self).id()]))"),
+           ],
+           hints=[Hint("start", "let ghost vx_e0 = *self; let ghost vx_w0 = *self.world;")],
+           props=["C01", "C02", "C13", "C15"]),
+    ])
+    u.impl("impl<Registry, Resources> World<Registry, Resources> where Registry: crate::Registry", [
+        Fn(W, WIMPL, "entry", ret="r", ret_type="Option<Entry<Registry, Resources>>",
+           rewrites=[(r"self\.entity_allocator\s*\.get\(entity_identifier\)\s*\.map\(\|location\| Entry::new\(self, location\)\)",
+                      "match self.entity_allocator.get(entity_identifier) { Some(location) => Some(Entry::new(self, location)), None => None }",
+                      "R5c: Option::map(closure) written as the match it is defined to be")],
+           requires=PRE,
+           ensures=[("C02.entry.some_iff_live", "r is Some == old(self).view().dom().contains(entity_identifier)"),
+                    ("C03.entry.that_entity", "r is Some ==> r->0.wf() && r->0.id() == entity_identifier && *r->0.world == *old(self)")],
+           props=["C02", "C03", "C01"]),
+    ])
     u.text(WORLD_LEMMAS)
     u.type_rewrites += [
         (r"\bregistry::Registry\b", "crate::Registry", "path of the Registry trait"),
         (r"\bself::Entities\b", "crate::EntitiesMarker", "path"),
     ]
     u.pre_rewrites += [
+        (r"Registry::LEN - Registry::INDEX - 1", "vx_component_index::<Component>()", "R8: registry position of the component (associated consts of a type-level list)"),
+        (r"self\.location\.identifier\.get_unchecked\(component_index\)", "vx_ref_get_unchecked(self.location.identifier, component_index)", "R7: IdentifierRef::get_unchecked (K-bits)"),
+        (r"self\.location\.identifier\.as_vec\(\)", "vx_ref_as_vec(self.location.identifier)", "R7: IdentifierRef::as_vec (K-bits)"),
+        (r"archetype::Identifier::<Registry>::new\(", "archetype::Identifier::<Registry>::new(", "R7"),
+        (r"\barchetypes\s*\.get_mut_or_insert_new\(", "archetypes.vx_get_mut_or_insert_new(", "R7: lookup-or-insert by identifier bytes (assumed contract)"),
+        (r"current_component_bytes\.as_ptr\(\)", "archetype::vx_as_ptr(&current_component_bytes)", "R6b: packed row buffer pointer"),
         (r"Registry::assert_no_duplicates\(&mut HashSet::with_capacity_and_hasher\(\s*Registry::LEN,\s*FnvBuildHasher::default\(\),\s*\)\);",
          "vx_assert_no_duplicates::<Registry>();",
          "R6/A4: the duplicate-component assertion (hashbrown HashSet of TypeIds) is an assumed-contract call, wherever it appears"),
@@ -749,6 +824,40 @@ def build():
     })
     return u
 
+
+ENTRY_SPEC = r'''
+impl<'a, Registry: crate::Registry, Resources> Entry<'a, Registry, Resources> {
+    /// the entry points at a stored row of a well-formed world
+    pub open spec fn wf(&self) -> bool {
+        &&& self.world.wf()
+        &&& self.world.archetypes@.dom().contains(self.location.identifier)
+        &&& self.location.index < self.world.archetypes@[self.location.identifier].length
+    }
+    /// the identifier of the entity this entry refers to
+    pub open spec fn id(&self) -> entity::Identifier {
+        self.world.archetypes@[self.location.identifier].ids()[self.location.index as int]
+    }
+}
+/// byte buffer with bit `i` set
+pub open spec fn vx_bytes_set(bytes: Seq<u8>, i: int) -> Seq<u8> {
+    bytes.update(i / 8, bytes[i / 8] | (1u8 << ((i % 8) as u8)))
+}
+/// (component set, row) of an entity after `Entry::add(component)`: the cell is overwritten if
+/// the component is present, else the component joins the set
+pub open spec fn vx_added<R: Registry, C>(e: (VxBits, archetype::VxRow), c: C) -> (VxBits, archetype::VxRow) {
+    if vx_bit(e.0, vx_cidx::<C>() as int) { (e.0, archetype::vx_row_set(e.1, c)) }
+    else { (vx_bytes_set(e.0, vx_cidx::<C>() as int), archetype::vx_row_add(e.1, c)) }
+}
+/// byte buffer with bit `i` flipped (Entry::remove flips a bit it has just seen set)
+pub open spec fn vx_bytes_flip(bytes: Seq<u8>, i: int) -> Seq<u8> {
+    bytes.update(i / 8, bytes[i / 8] ^ (1u8 << ((i % 8) as u8)))
+}
+/// (component set, row) after `Entry::remove::<C>()`: unchanged if absent, else C leaves the set
+pub open spec fn vx_removed<R: Registry, C>(e: (VxBits, archetype::VxRow)) -> (VxBits, archetype::VxRow) {
+    if vx_bit(e.0, vx_cidx::<C>() as int) { (vx_bytes_flip(e.0, vx_cidx::<C>() as int), archetype::vx_row_remove(e.1, PhantomData::<C>)) }
+    else { e }
+}
+'''
 
 WORLD_LEMMAS = r'''
 /// after `table.push(entity, allocator)` on the table selected for `bits`
